@@ -311,7 +311,7 @@ def scan_contract(B, meth):
 
 for _m in ("getIoValFirst", "getIoVals", "popIoVal", "remIoVals", "addIoVal", "putIoVals", "pinIoVals", "remIoSetVal", "addIoSetVal", "putIoSetVals", "pinIoSetVals"):
     def _mk(m=_m):
-        @contract(DUROR + "." + m, props=["C24"], name=DUROR + "." + m + "[bounded <=3 entries; symbolic io-keys, values and key]", z3_ms=3000)
+        @contract(DUROR + "." + m, props=["C24", "C23"], name=DUROR + "." + m + "[bounded <=3 entries; symbolic io-keys, values and key]", z3_ms=3000)
         def _c(B):
             scan_contract(B, m)
     _mk()
